@@ -330,6 +330,8 @@ let () =
                   | None -> ()
                   | Some d -> fail id "SPEC" "transparent" (trunc (where ^ ": " ^ d))
                 end else count "structure_dependent_not_compared"
+              | "R" ->
+                if out1 <> out2 then fail id "SPEC" "codec_roundtrip" (trunc (where ^ ": decoded " ^ out1 ^ " ; value " ^ out2))
               | "U" -> count "unmodelled_surface_no_panic"
               | k -> fail id "CORR" "protocol" ("unknown kind " ^ k)
             end
